@@ -331,11 +331,13 @@ func c15Run(c *Case) {
 func init() {
 	register(&Prop{
 		ID: "C15", Level: "exploration",
-		Rule: "sampled histories of 5-40 operations (push pop popfirst index-read index-write length contains sort, nested method calls inside arguments) over two arrays each held by exactly one name (variable, $-path, object member, array element), element values of every kind; after every operation the program prints the result and json()/length() of both arrays, compared with an ideal-list model; candidate steps leaving the stated semantics are discarded with the model. Enumerated: every ordered pair of 13 operations on arrays of length 0,1,2,5 (676 programs); contains(v) vs v == a[0] on 17x17 value pairs (law on the implementation alone). Non-trivial = history with a removal followed by an append/extension, or a nested call; distinct by program text.",
+		Rule:          "sampled histories of 5-40 operations (push pop popfirst index-read index-write length contains sort, nested method calls inside arguments) over two arrays each held by exactly one name (variable, $-path, object member, array element), element values of every kind; after every operation the program prints the result and json()/length() of both arrays, compared with an ideal-list model; candidate steps leaving the stated semantics are discarded with the model. Enumerated: every ordered pair of 13 operations on arrays of length 0,1,2,5 (676 programs); contains(v) vs v == a[0] on 17x17 value pairs (law on the implementation alone). Non-trivial = history with a removal followed by an append/extension, or a nested call; distinct by program text.",
 		NumCases:      c15Cases,
 		Run:           c15Run,
 		MinConclusive: func(tier string) int { return 3000 },
-		Exhaustive:    func(tier string) string { return "ordered pairs of 13 list operations x 4 initial lengths; contains/== value-pair table" },
-		Assumptions:   []string{"ideal-list semantics of DESIGN.md section 3.10", "each array is held by exactly one name (length changes through a second reference are known finding K-ALIAS under C09)"},
+		Exhaustive: func(tier string) string {
+			return "ordered pairs of 13 list operations x 4 initial lengths; contains/== value-pair table"
+		},
+		Assumptions: []string{"ideal-list semantics of DESIGN.md section 3.10", "each array is held by exactly one name (length changes through a second reference are known finding K-ALIAS under C09)"},
 	})
 }
